@@ -94,8 +94,43 @@ def _code_positions(src, start, end):
         i += 1
 
 
+# ---- canonical layout (fallback) ------------------------------------------------------------------------------------
+# When an anchor is lost on the text as written, the engine retries once with every source file passed through
+# `rustfmt --edition 2021` (default configuration, read from stdin with cwd=/ so that no rustfmt.toml applies). rustfmt
+# changes layout only (line breaks, indentation, trailing commas); /repo itself is rustfmt-clean, so the contracts were
+# written against exactly this layout. A tree that was merely re-formatted is therefore still decided.
+CANON = False
+_CANON_CACHE = {}
+
+
+def rustfmt_available():
+    import shutil
+    return shutil.which('rustfmt') is not None
+
+
+def read_src(path):
+    src = open(path).read()
+    if not CANON:
+        return src
+    import hashlib, subprocess
+    key = hashlib.sha256(src.encode()).hexdigest()
+    if key not in _CANON_CACHE:
+        try:
+            p = subprocess.run(['rustfmt', '--edition', '2021', '--emit', 'stdout'], input=src, capture_output=True, text=True, cwd='/', timeout=60)
+            _CANON_CACHE[key] = p.stdout if p.returncode == 0 and p.stdout.strip() else src
+        except Exception:
+            _CANON_CACHE[key] = src
+    return _CANON_CACHE[key]
+
+
 def norm(s):
-    return re.sub(r'\s+', ' ', s).strip()
+    # layout-insensitive: one space between tokens, none after an opening / before a closing bracket or a comma, no
+    # trailing comma before a closing bracket - `fn f(\n a: T,\n)` and `fn f(a: T)` are the same signature
+    s = re.sub(r'\s+', ' ', s).strip()
+    s = re.sub(r'([(<\[]) ', r'\1', s)
+    s = re.sub(r' ([)>\],])', r'\1', s)
+    s = re.sub(r',([)>\]])', r'\1', s)
+    return s
 
 
 def _strip_vis(h):
@@ -229,7 +264,7 @@ class Item:
 def extract_fn(repo, file, within, name):
     path = f"{repo}/{file}"
     try:
-        src = open(path).read()
+        src = read_src(path)
     except OSError as e:
         raise LostAnchor(f"{file}: {e}")
     start, end = 0, len(src)
@@ -251,7 +286,7 @@ def _find_block_in(src, header, start, end, containing_fn=None):
 
 def extract_const(repo, file, name):
     """Return the defining expression text of `const NAME: T = <expr>;` (unique)."""
-    src = open(f"{repo}/{file}").read()
+    src = read_src(f"{repo}/{file}")
     ms = list(re.finditer(r'(?m)^\s*(?:pub(?:\([^)]*\))?\s+)?const\s+' + re.escape(name) + r'\s*:\s*([^=]+?)\s*=\s*([^;]+);', src))
     if len(ms) != 1:
         raise LostAnchor(f"const {name} in {file}: {len(ms)} matches")
@@ -260,6 +295,6 @@ def extract_const(repo, file, name):
 
 def extract_block_text(repo, file, header):
     """Return full text of a block item (struct/enum/impl) by header."""
-    src = open(f"{repo}/{file}").read()
+    src = read_src(f"{repo}/{file}")
     s, b, c = find_block(src, header)
     return src[s:c + 1]
